@@ -103,9 +103,10 @@ def run_C01(ctx):
         ("dbg", "P1", "S0", 4 if q else 6, pr, {}), ("sec", "P1", "S0", 4 if q else 6, pr, {}),
         ("dbg", "P2", "S0", 3 if q else 4, pr, {}), ("sec", "P3r", "S0", 3 if q else 4, pr, {}),
     ]
-    grid = [("rel", "entry", not q, {}), ("rel", "align", False, {}), ("dbg", "entry", False, {}), ("sec", "entry", False, {})]
+    grid = [("rel", "entry", not q, {}), ("rel", "align", False, {}), ("dbg", "entry", False, {}), ("sec", "entry", False, {}),
+            ("rel", "fillpage", False, {}), ("sec", "fillpage", False, {}), ("dbg", "fillpage", False, {})]
     return mixed_property(ctx, plan, grid,
-        rule="inputs: every allocation entry point (30) x boundary size grid x release variant, and the (size, alignment, offset) grid of C03, in carried-over heap states; histories: all sequences of operations of each profile alphabet (P1 page life-cycle {malloc 8K/48, fill, free(i), collect}, P2 spans {64K,100K,1M,17M,40M}, P3 small, P3r realloc, P7t threads, P4h heaps) up to depth D from start states S0..S4; node oracle: every live block's whole usable range holds its pattern, new blocks are disjoint from live ones, aligned, inside accessible memory.",
+        rule="fillpage: for every size class up to 1 KiB and seven consecutive pages of it, the page is filled to its very last block while the next slice holds the page of a larger class (first block at the start of the slice); every block is checked against all live ones. inputs: every allocation entry point (30) x boundary size grid x release variant, and the (size, alignment, offset) grid of C03, in carried-over heap states; histories: all sequences of operations of each profile alphabet (P1 page life-cycle {malloc 8K/48, fill, free(i), collect}, P2 spans {64K,100K,1M,17M,40M}, P3 small, P3r realloc, P7t threads, P4h heaps) up to depth D from start states S0..S4; node oracle: every live block's whole usable range holds its pattern, new blocks are disjoint from live ones, aligned, inside accessible memory.",
         assumptions=COMMON_ASSUME + ["free(i) is enumerated for all i while at most `free_window` blocks are live, else for the first and last window/2"])
 
 # ------------------------------------------------------------------------------------------------
@@ -159,7 +160,8 @@ def run_C04(ctx):
 def run_C05(ctx):
     q = ctx.quick
     grid = [("rel", "realloc", not q, {}), ("sec", "realloc", False, {}), ("dbg", "realloc", False, {})]
-    seq = [("rel", "P3r", "S0", 4 if q else 6, [] if q else ["--prune"], {}), ("rel", "P3r", "S1", 3 if q else 5, [], {})]
+    seq = [("rel", "P3r", "S0", 4 if q else 6, [] if q else ["--prune"], {}), ("rel", "P3r", "S1", 3 if q else 5, [], {}),
+           ("rel", "P5m", "S7", 3 if q else 5, [] if q else ["--prune"], {}), ("rel", "P5m", "S0", 4 if q else 6, [] if q else ["--prune"], {})]
     return mixed_property(ctx, seq, grid,
         rule="all ordered (old,new) pairs over the boundary size grid x 12 realloc-family variants (quick: mi_realloc on all pairs, the others on 1/6 of them); per case: result non-NULL, usable>=new, first min(old,new) bytes equal, grown part of zero-tracked blocks zero, heap-walk block count unchanged (old released iff pointer changed), new block reported live, mi_expand only within usable; every 7th case additionally a failing call (size > PTRDIFF_MAX / overflowing count) leaves the block live and intact, mi_reallocf frees it; plus P3r sequences.",
         assumptions=COMMON_ASSUME + ["mi_expand is expected to succeed only in builds without padding (rel)"])
@@ -298,6 +300,8 @@ def run_C11(ctx):
     q = ctx.quick
     base = [{}, {"MIMALLOC_DISALLOW_ARENA_ALLOC": "1"}, {"MIMALLOC_ARENA_RESERVE": "64MiB"}, {"MIMALLOC_PURGE_DELAY": "0"}, {"MIMALLOC_PURGE_DELAY": "-1"},
             {"MIMALLOC_PURGE_DECOMMITS": "0", "VF_RESET_ZERO": "1"}, LAZY, envs(LAZY, {"MIMALLOC_DISALLOW_ARENA_ALLOC": "1", "MIMALLOC_PURGE_DELAY": "0"})]
+    # (the last configuration is the one of the known finding: reset-mode purge with fully lazy commit)
+    base.append(envs({"MIMALLOC_PURGE_DELAY": "10", "MIMALLOC_PURGE_DECOMMITS": "0", "VF_RESET_ZERO": "1"}, LAZY))
     plan = [("rel", "footprint", [], e) for e in base] + [("sec", "footprint", [], {}), ("dbg", "footprint", [], {}), ("dbg", "footprint", [], {"MIMALLOC_DISALLOW_ARENA_ALLOC": "1"})]
     if not q:
         import itertools
@@ -321,7 +325,7 @@ def run_C18(ctx):
             plan.append(("rel", "purge", [], envs(e, {"MIMALLOC_DISALLOW_ARENA_ALLOC": "1"})))
             plan.append(("rel", "purge", [], envs(e, {"MIMALLOC_ARENA_RESERVE": "64MiB"})))
     return os_property(ctx, plan, level="model_checking", parallel=8,
-        rule="scenario enumeration with the virtual clock: {what becomes unused: a 1 MiB page inside a live segment, a whole (huge) segment, everything, four non-adjacent pages of one segment, the same four pages with one of the spans taken and released again (delay+1000)/(delay-extend)+2 times before any time passes (re-use must re-arm the expiry, not accumulate it)} x {later activity: free another page of the segment, allocate in the segment, alloc+free a 40 MiB block, mi_collect(false), small fast-path traffic (negative control)} x {purge_delay -1/0/5/10} x {decommit, reset} x {arena_purge_mult 1, 10} x {arenas on, off, small}. Oracle from the shim's call log: delay 0 -> the freed range is covered by madvise/munmap before the freeing call returns; delay d>0 -> no purge of the range before the clock passes d (d*mult for whole segments) whatever happens, and after it has passed the activities that reach a purge point (page: free of another page; segment: any arena free or non-forced collect) return the range without a forced collect; delay -1 -> no purge call at all, even under mi_collect(true).",
+        rule="scenario enumeration with the virtual clock: {what becomes unused: a 1 MiB page inside a live segment, a whole (huge) segment, everything, four huge segments (one per arena when arenas are 64 MiB: a non-forced pass purges at most two arenas and must stay armed, so three passes a delay period apart have to return all four), four non-adjacent pages of one segment, the same four pages with one of the spans taken and released again (delay+1000)/(delay-extend)+2 times before any time passes (re-use must re-arm the expiry, not accumulate it)} x {later activity: free another page of the segment, allocate in the segment, alloc+free a 40 MiB block, mi_collect(false), small fast-path traffic (negative control)} x {purge_delay -1/0/5/10} x {decommit, reset} x {arena_purge_mult 1, 10} x {arenas on, off, small}. Oracle from the shim's call log: delay 0 -> the freed range is covered by madvise/munmap before the freeing call returns; delay d>0 -> no purge of the range before the clock passes d (d*mult for whole segments) whatever happens, and after it has passed the activities that reach a purge point (page: free of another page; segment: any arena free or non-forced collect) return the range without a forced collect; delay -1 -> no purge call at all, even under mi_collect(true).",
         assumptions=COMMON_ASSUME + ["time is the shim's virtual clock", "allocating inside a segment re-arms its purge delay by design, so that activity is recorded as a control only"])
 
 # ------------------------------------------------------------------------------------------------
@@ -383,23 +387,26 @@ SCHED_ASSUME = [
 ]
 RF = {"MIMALLOC_ABANDONED_RECLAIM_ON_FREE": "1"}
 NOARENA = {"MIMALLOC_DISALLOW_ARENA_ALLOC": "1"}
+NORECL = {"MIMALLOC_MAX_SEGMENT_RECLAIM": "0"}    # no adoption while searching for a segment: several abandoned segments coexist (adoption by free still works)
 
 def run_C02(ctx):
     q = ctx.quick
     B = 2
-    plan = [("rel", p, B, 1, {}) for p in ("H1", "H2", "H3", "H4", "H5", "D1")] + [("rel", "E5", B, 1, RF), ("rel", "E1", B, 1, RF), ("rel", "H4", B, 0, {"VF_RESET_ZERO": "1"})]
+    plan = [("rel", p, B, 1, {}) for p in ("H1", "H2", "H3", "H4", "H5", "D1")] + [("rel", "E5", B, 1, RF), ("rel", "E1", B, 1, RF), ("rel", "H4", B, 0, {"VF_RESET_ZERO": "1"}), ("rel", "AB1", B, 0, RF), ("rel", "AB2", B, 0, RF)]
     plan += [("dbg", "H2", 1 if q else 2, 1, {}), ("sec", "H3", 1 if q else 2, 1, {})]
     if q: plan += [("rel", ("family", 0, 700, ), 1, 0, {})]
     else: plan += [("rel", ("family", 0, 750), 2, 1, {}), ("rel", "H2", 3, 2, {}), ("rel", "H3", 3, 2, {}), ("rel", "H1", 3, 2, {}), ("rel", "H5", 3, 2, {}), ("dbg", "H5", 2, 1, {}), ("sec", "H2", 2, 1, {})]
     race = race_jobs(ctx, [(p, {}) for p in ("H1", "H2", "H3", "H4", "H5", "D1")] + [("E5", RF), ("E1", RF), (("family", 0, 700 if q else 750), {})])
     return conc_property(ctx, conc_jobs(ctx, plan), extra_jobs=race,
-        rule=RACE_NOTE.strip() + " Programs: H1 (remote frees into a page with free blocks vs owner malloc through fast and generic path), H2 (page in the full queue: first remote free goes to the heap's delayed list, second to the page list, vs owner collect+malloc, 3 threads), H3 (two full pages, frees racing the owner's delayed-free take-over), H4 (huge block freed remotely vs owner collect/alloc), H5 (last blocks of a full page freed remotely and locally), D1 (heap delete vs frees), E1/E5 (frees into abandoned segments with reclaim-on-free), and a generated family: every program with 2 threads x 2 ops or 3 threads x 1 op over {malloc 8K, free a, free b, collect(0), collect(1)} on two shared blocks of one full page (750 programs). All interleavings up to the preemption bound (quick 2; family 1) with up to 1 spurious weak-CAS failure. Oracle: a block leaves the live set immediately before its free call and enters it after malloc returns; every returned range must be disjoint from all live blocks; every live block's full usable range must hold its pattern after every operation of every thread; no crash, assertion or error callback.",
+        rule=RACE_NOTE.strip() + " Programs: AB1/AB2 (an abandoned segment whose pending purge is carried out by a visiting thread -- forced collect / search for a segment that finds it unsuitable -- while another thread adopts it by reclaim-on-free and allocates in the span), H1 (remote frees into a page with free blocks vs owner malloc through fast and generic path), H2 (page in the full queue: first remote free goes to the heap's delayed list, second to the page list, vs owner collect+malloc, 3 threads), H3 (two full pages, frees racing the owner's delayed-free take-over), H4 (huge block freed remotely vs owner collect/alloc), H5 (last blocks of a full page freed remotely and locally), D1 (heap delete vs frees), E1/E5 (frees into abandoned segments with reclaim-on-free), and a generated family: every program with 2 threads x 2 ops or 3 threads x 1 op over {malloc 8K, free a, free b, collect(0), collect(1)} on two shared blocks of one full page (750 programs). All interleavings up to the preemption bound (quick 2; family 1) with up to 1 spurious weak-CAS failure. Oracle: a block leaves the live set immediately before its free call and enters it after malloc returns; every returned range must be disjoint from all live blocks; every live block's full usable range must hold its pattern after every operation of every thread; no crash, assertion or error callback.",
         assumptions=COMMON_ASSUME[:2] + SCHED_ASSUME)
 
 def run_C08(ctx):
     q = ctx.quick
     plan = [("rel", p, 2, 1, {}) for p in ("H2", "H3", "H5", "D1", "D3")] + [("rel", "PC", 2 if q else 3, 0, {}), ("rel", "R1", 2 if q else 3, 0, RF), ("rel", "R2", 2 if q else 3, 0, RF)]
     plan += [("dbg", "H2", 1 if q else 2, 1, {})]
+    # frees racing with the owner's exit: nothing may be lost either (final leak check of the E programs)
+    plan += [("rel", "E1", 2, 0, {}), ("rel", "E1", 2, 0, RF), ("rel", "E5", 2, 0, RF)]
     if q: plan += [("rel", ("family", 0, 700), 1, 0, {})]
     else: plan += [("rel", ("family", 0, 750), 2, 1, {}), ("rel", "H2", 3, 1, {}), ("rel", "H3", 3, 2, {}), ("sec", "H3", 2, 1, {})]
     race = race_jobs(ctx, [(p, {}) for p in ("H2", "H3", "H5", "D1", "D3", "PC")] + [("R1", RF), ("R2", RF)])
@@ -414,11 +421,12 @@ def run_C09(ctx):
     for env in ({}, RF, NOARENA, ALL):
         for p in ("E1", "E4", "E5"): plan.append(("rel", p, 2, 1 if not q else 0, env))
         plan.append(("rel", "E2", 2, 0, env))
-    plan += [("rel", "E3", 1 if q else 2, 0, {}), ("rel", "E3", 1 if q else 2, 0, RF), ("dbg", "E1", 1 if q else 2, 0, RF), ("dbg", "E5", 1 if q else 2, 0, RF), ("rel", "AB1", 2, 0, RF)]
+    plan += [("rel", "E3", 1 if q else 2, 0, {}), ("rel", "E3", 1 if q else 2, 0, RF), ("dbg", "E1", 1 if q else 2, 0, RF), ("dbg", "E5", 1 if q else 2, 0, RF), ("rel", "AB1", 2, 0, RF),
+             ("rel", "E6", 1 if q else 2, 0, envs(NOARENA, RF, NORECL)), ("rel", "E6", 1 if q else 2, 0, envs(RF, NORECL)), ("rel", "E6", 1, 0, envs(NOARENA, NORECL)), ("dbg", "E6", 1, 0, envs(NOARENA, RF, NORECL))]
     if not q: plan += [("rel", "E1", 3, 1, RF), ("rel", "E5", 3, 1, RF), ("sec", "E1", 2, 1, RF), ("dbg", "E3", 2, 0, NOARENA), ("rel", "E3", 2, 0, ALL)]
     race = race_jobs(ctx, [(p, RF) for p in ("E1", "E2", "E3", "E4", "E5", "AB1")] + [("E1", {}), ("E2", NOARENA)])
     return conc_property(ctx, conc_jobs(ctx, plan), extra_jobs=race,
-        rule=RACE_NOTE.strip() + " AB1: a forced collect visits (and purges) an abandoned segment while another thread adopts it by freeing one of its blocks and allocates in its pending-purge span; programs E1 (thread exit vs remote free of one of its blocks vs an allocation that may adopt), E2 (two segments left by finished threads; two threads allocate and free into them and may both adopt), E3 (forced abandonment through mi_collect_reduce with two segments vs remote frees into both), E4 (as E1 with the allocating thread in another sub-process), E5 (two remote frees into one abandoned segment, then both freeing threads allocate) x configurations {arena segments, OS segments (arenas disabled), reclaim-on-free on/off, visit_abandoned}. Oracle: blocks of the terminated thread keep their contents and can be freed by others; anything handed out after adoption is disjoint from all live blocks (two adopters would hand out the same memory); at the end, after all blocks are freed, all threads ended and the main thread force-collected, no arena block is in use or marked abandoned, the abandoned count is 0 and no segment-sized OS mapping is left.",
+        rule=RACE_NOTE.strip() + " E6: three segments, two of them abandoned; a free adopts the most recently abandoned one, the third thread exits, then the block in the oldest abandoned segment is freed (with segments straight from the OS this exercises unlink-last / append / lookup on the list of abandoned OS segments); nothing may stay mapped. AB1: a forced collect visits (and purges) an abandoned segment while another thread adopts it by freeing one of its blocks and allocates in its pending-purge span; programs E1 (thread exit vs remote free of one of its blocks vs an allocation that may adopt), E2 (two segments left by finished threads; two threads allocate and free into them and may both adopt), E3 (forced abandonment through mi_collect_reduce with two segments vs remote frees into both), E4 (as E1 with the allocating thread in another sub-process), E5 (two remote frees into one abandoned segment, then both freeing threads allocate) x configurations {arena segments, OS segments (arenas disabled), reclaim-on-free on/off, visit_abandoned}. Oracle: blocks of the terminated thread keep their contents and can be freed by others; anything handed out after adoption is disjoint from all live blocks (two adopters would hand out the same memory); at the end, after all blocks are freed, all threads ended and the main thread force-collected, no arena block is in use or marked abandoned, the abandoned count is 0 and no segment-sized OS mapping is left.",
         assumptions=COMMON_ASSUME[:2] + SCHED_ASSUME + ["thread exit is the explicit mi_thread_done() call; the pthread-key destructor later finds the heap already released"])
 
 def run_C10(ctx):
@@ -499,10 +507,11 @@ def run_C17(ctx):
     q = ctx.quick
     pr = [] if q else ["--prune"]
     plan = [("sec", "P9s", "S0", 5 if q else 7, pr, {}), ("dbg", "P9s", "S0", 5 if q else 7, pr, {}), ("sec", "P9s", "S1", 4 if q else 5, pr, {}), ("dbg", "P9s", "S1", 4 if q else 5, pr, {}),
-            ("sec", "P9s", "S4", 4 if q else 5, pr, {}), ("sec", "P1", "S0", 4 if q else 6, pr, {})]
+            ("sec", "P9s", "S4", 4 if q else 5, pr, {}), ("sec", "P1", "S0", 4 if q else 6, pr, {}),
+            ("sec", "P9g", "S8", 4 if q else 6, pr, {}), ("dbg", "P9g", "S8", 4 if q else 5, pr, {})]
     grid = [("sec", "hardened", not q, {}), ("dbg", "hardened", not q, {})]
     return mixed_property(ctx, plan, grid,
-        rule="size grid (mode hardened, every case in its own process): every requested size 1..130 and the boundary size grid up to 2 MiB x {foreign byte at offset = requested size, block freed by its own thread -> EFAULT; the same freed by another thread -> EFAULT; second free while a neighbour in the same page is live -> exactly one EAGAIN, afterwards two allocations return distinct non-overlapping blocks (secure build)}. Histories: hardened builds (MI_SECURE=4 decides 'stays usable'; MI_DEBUG=3 the reports only), error callback registered: all sequences over {malloc(8000), malloc(100), fill(8 x 8000 = one page), free(i)} plus the three faults at every position the history allows: double_free(j) = second free of any of the six most recently released blocks that is still free while its page holds another live block (expected: exactly one EAGAIN and an unchanged allocator fingerprint); overflow_then_free(i) = one foreign byte at p[requested] of a block with slack, then free (expected: EFAULT); forge_link(j, target) = the free-list link of a released block overwritten with the encoding of an address outside its page (another segment, or a live block of another page) (expected: EFAULT when the allocator reaches it instead of following it). In the secure build exploration continues afterwards under the C01 oracle (no overlap, contents, accessibility) and every live block must lie in a heap region; in the debug build the branch ends after the first report.",
+        rule="size grid (mode hardened, every case in its own process): every requested size 1..130 and the boundary size grid up to 2 MiB x {foreign byte at offset = requested size, block freed by its own thread -> EFAULT; the same freed by another thread -> EFAULT; second free while a neighbour in the same page is live -> exactly one EAGAIN, afterwards two allocations return distinct non-overlapping blocks (secure build)}. Histories (forged link targets: another segment-sized region, a live block of another page, the gap between the start of the page's slice and its block area, an address 128 KiB further in the same segment; whenever a block whose link was forged is handed out again the number of such blocks must not exceed the number of EFAULT reports; profile P9g from start state S8 = 40-byte blocks, free list of the page empty): hardened builds (MI_SECURE=4 decides 'stays usable'; MI_DEBUG=3 the reports only), error callback registered: all sequences over {malloc(8000), malloc(100), fill(8 x 8000 = one page), free(i)} plus the three faults at every position the history allows: double_free(j) = second free of any of the six most recently released blocks that is still free while its page holds another live block (expected: exactly one EAGAIN and an unchanged allocator fingerprint); overflow_then_free(i) = one foreign byte at p[requested] of a block with slack, then free (expected: EFAULT); forge_link(j, target) = the free-list link of a released block overwritten with the encoding of an address outside its page (another segment, or a live block of another page) (expected: EFAULT when the allocator reaches it instead of following it). In the secure build exploration continues afterwards under the C01 oracle (no overlap, contents, accessibility) and every live block must lie in a heap region; in the debug build the branch ends after the first report.",
         assumptions=COMMON_ASSUME + ["forged values that decode into the same page, and a second free after the whole page was released, are outside the claim and not generated"])
 
 def run_C15(ctx):
